@@ -248,6 +248,8 @@ trait Dom: 'static {
     const HAS_EL: bool;
     const HAS_SHARED: bool;
     const HAS_CMP: bool;
+    /// capacity floor of the copy made by into_owned of a Shared value (see fmtcap in CowOwnership.tla)
+    const FCAP: usize;
     fn mk_static(v: &[i64]) -> Self::S;
     fn mk_owned(v: &[i64], cap: usize) -> Self::O;
     fn mk_arc(v: &[i64]) -> Self::A;
@@ -285,6 +287,7 @@ impl Dom for DStr {
     const HAS_EL: bool = false;
     const HAS_SHARED: bool = true;
     const HAS_CMP: bool = true;
+    const FCAP: usize = 8;
     fn mk_static(v: &[i64]) -> &'static str {
         Box::leak(to_string(v).into_boxed_str())
     }
@@ -305,7 +308,7 @@ impl Dom for DStr {
         a.clone()
     }
     fn strong(a: &Arc<str>) -> i64 {
-        Arc::strong_count(a) as i64
+        clamp(Arc::strong_count(a) as u64)
     }
     fn borrowed(s: &'static str, via: u64) -> Self::C {
         match via % 5 {
@@ -393,6 +396,7 @@ impl Dom for DSlice {
     const HAS_EL: bool = true;
     const HAS_SHARED: bool = true;
     const HAS_CMP: bool = true;
+    const FCAP: usize = 0;
     fn mk_static(v: &[i64]) -> &'static [Tracked] {
         // leaked on purpose; not counted as created
         let b: Vec<Tracked> = v.iter().map(|x| Tracked { id: *x as u32 }).collect();
@@ -414,7 +418,7 @@ impl Dom for DSlice {
         a.clone()
     }
     fn strong(a: &Self::A) -> i64 {
-        Arc::strong_count(a) as i64
+        clamp(Arc::strong_count(a) as u64)
     }
     fn borrowed(s: &'static [Tracked], via: u64) -> TCow {
         match via % 4 {
@@ -523,6 +527,7 @@ impl Dom for DKey {
     const HAS_EL: bool = true;
     const HAS_SHARED: bool = false;
     const HAS_CMP: bool = false;
+    const FCAP: usize = 0;
     fn mk_static(v: &[i64]) -> Self::S {
         let b: Vec<metrics::Label> = v.iter().map(|x| mk_label(*x)).collect();
         LEAKED_LABELS.fetch_add(b.len() as i64, Ordering::Relaxed);
@@ -865,7 +870,7 @@ fn run_program<D: Dom>(prog: &[Op], idx: usize, src: &str, out: &mut Out) {
     let base_el = if D::HAS_EL { D::el() } else { 0 };
     out.put(&json!({"ev": "reset", "dom": D::NAME, "esz": D::ESZ, "hdr": 2 * std::mem::size_of::<usize>(),
                     "al": std::mem::align_of::<usize>(), "cnt": D::HAS_CNT as i64, "hel": D::HAS_EL as i64,
-                    "prog": idx, "src": src}));
+                    "fcap": D::FCAP, "prog": idx, "src": src}));
     let mut dead = false;
     for o in prog {
         let e = step::<D>(&mut st, o, base_tl, base_el);
@@ -983,7 +988,7 @@ fn run_par<D: Dom>(threads: usize, iters: usize, idx: usize, out: &mut Out) {
         -1
     };
     let _ = take_meas();
-    out.put(&json!({"ev": "reset", "dom": D::NAME, "esz": D::ESZ, "hdr": 16, "al": 8, "cnt": 0, "hel": 0, "prog": idx, "src": "par"}));
+    out.put(&json!({"ev": "reset", "dom": D::NAME, "esz": D::ESZ, "hdr": 16, "al": 8, "cnt": 0, "hel": 0, "fcap": D::FCAP, "prog": idx, "src": "par"}));
     out.put(&json!({"ev": "par", "threads": threads, "iters": iters, "shared": D::HAS_SHARED as i64,
                     "sc0": sc0, "sc1": sc1, "sc2": sc2, "el1": el1, "tl1": tl1,
                     "el2": if D::HAS_EL { D::el() - el0 } else { 0 },
@@ -1038,7 +1043,9 @@ fn random_program(rng: &mut rand::rngs::StdRng, dom: &str) -> Value {
             4 => 2,
             5 => 3,
             6 => 5,
-            _ => 8,
+            // Key::from_parts hashes >= 8 labels through a temporary Vec (key.rs, not the cow): keep the
+            // key domain below that so the allocator counts are the cow's alone
+            _ => if dom == "key" { 7 } else { 8 },
         };
         let base = ((k % 12) * 10) as i64;
         let v: Vec<i64> = (1..=len as i64).map(|x| base + x).collect();
@@ -1138,10 +1145,32 @@ fn random_program(rng: &mut rand::rngs::StdRng, dom: &str) -> Value {
 // ------------------------------------------------------------------------------------------------
 // parent / child
 // ------------------------------------------------------------------------------------------------
-fn child(inp: &str, outp: &str, skip: usize) {
-    let text = std::fs::read_to_string(inp).expect("read programs");
+/// Everything that is initialised lazily (hasher seeds, thread machinery, statics of this harness)
+/// is touched once outside every measurement bracket.
+fn warmup() {
     let _ = karc();
     let _ = val_str(0);
+    let k = metrics::Key::from_parts(KNAME, vec![mk_label(1), mk_label(2)]);
+    let _ = k.get_hash();
+    let k2 = k.clone();
+    drop(k2.into_parts());
+    drop(k);
+    let s = metrics::SharedString::from_shared(Arc::from("w"));
+    let _ = DStr::hash_cow(&s);
+    drop(s.clone().into_owned());
+    drop(s);
+    let t = TCow::from_owned(vec![Tracked { id: 1 }]);
+    let _ = DSlice::hash_cow(&t);
+    std::thread::scope(|sc| {
+        sc.spawn(|| drop(t.clone())).join().unwrap();
+    });
+    std::mem::forget(t); // not counted as created: leave the counters balanced
+    let _ = take_meas();
+}
+
+fn child(inp: &str, outp: &str, skip: usize) {
+    let text = std::fs::read_to_string(inp).expect("read programs");
+    warmup();
     let mut out = Out { f: std::fs::File::create(outp).expect("create child output"), lines: 0 };
     for (idx, line) in text.lines().filter(|l| !l.trim().is_empty()).enumerate() {
         if idx < skip {
@@ -1218,7 +1247,7 @@ fn run_batches(progs: &[Value], w: &mut vh::trace::Writer, tmp_prefix: &str) -> 
             }
             // abnormal end of the child: the program that was running is a crashed (or hung) run
             if !any || last_prog < skip {
-                w.put(&json!({"ev": "reset", "dom": "str", "esz": 1, "hdr": 16, "al": 8, "cnt": 0, "hel": 0, "prog": skip, "src": "crash"}));
+                w.put(&json!({"ev": "reset", "dom": "str", "esz": 1, "hdr": 16, "al": 8, "cnt": 0, "hel": 0, "fcap": 0, "prog": skip, "src": "crash"}));
                 last_prog = skip;
             }
             match status {
